@@ -259,7 +259,11 @@ def parse_loc(s):
     return mod, parse_span(sp), inside == "in", (None if cov == "-" else unhex(cov))
 
 
-def svc_oracle(module, data, ans, hist=None):
+# identifier contexts whose hover result legitimately is not the identifier itself (calibrated, see reports/C14.md)
+HOVER_NOT_A_NAME = set()
+
+
+def svc_oracle(module, data, ans, hist=None, exact=None):
     """LSP results at every identifier position: locations lie in their document, start <= end,
     spell the name where they denote one, and - in an error-free module - a local variable's
     definition and references exist and contain the queried occurrence."""
@@ -283,9 +287,15 @@ def svc_oracle(module, data, ans, hist=None):
             if not inside:
                 bad.append(f"{kind} at {rest}: result {mod} {sp} is outside its document or has start after end")
         if kind in ("def", "refs"):
-            at, hn, scope = rest.split(":")
+            at, hn, scope = rest.split(":")[:3]
+            ctx = rest.split(":")[3] if rest.count(":") >= 3 else ""
             l, c = (int(x) for x in at.split("."))
             name = unhex(hn)
+            if kind == "refs" and scope == "G":
+                # references of a class / member / field / variant name: every reported range spells that name
+                for mod, sp, inside, cov in locs:
+                    if inside and cov is not None and cov != name:
+                        bad.append(f"reference of the {ctx} name `{name.decode()}` (queried at {at}): range {sp} in {mod} covers {cov!r}")
             if scope == "L" and name != b"this":
                 for mod, sp, inside, cov in locs:
                     if inside and cov is not None and cov != name:
@@ -295,10 +305,20 @@ def svc_oracle(module, data, ans, hist=None):
                 if clean and kind == "refs" and locs and not any(sp[0] == l and sp[1] == c for _, sp, _, _ in locs):
                     bad.append(f"references of local `{name.decode()}` at {at} do not include the queried occurrence")
         elif kind == "hover":
-            l, c = (int(x) for x in rest.split("."))
+            at, tokspan, hn, ctx = rest.split(":")
+            l, c = (int(x) for x in at.split("."))
+            want = parse_span(tokspan)
+            name = unhex(hn)
+            if exact is not None:
+                exact[(ctx, "none" if not locs else "exact" if locs[0][1] == want else "other")] += 1
             for mod, sp, inside, cov in locs:
                 if not ((sp[0], sp[1]) <= (l, c) <= (sp[2], sp[3])):
-                    bad.append(f"hover at {rest} reports the range {sp} that does not contain the position")
+                    bad.append(f"hover at {at} reports the range {sp} that does not contain the position")
+                elif sp != want and ctx not in HOVER_NOT_A_NAME:
+                    # the position is inside an identifier token: the range reported back to the editor must be exactly
+                    # that token's span (expected span = the real lexer's token, tied to Model/Lexer.lean)
+                    bad.append(f"hover at {at} on the {ctx} name `{name.decode()}` reports the range {sp} instead of the "
+                               f"identifier's span {want}" + (f" (covers {cov!r})" if cov is not None else ""))
         elif kind == "fold" and syn == 0:     # sibling/nesting clauses quantify over syntactically valid modules
             spans = sorted(sp for _, sp, _, _ in locs)
             for i in range(len(spans)):
